@@ -229,6 +229,15 @@ func runPrec(r *core.Run) {
 		}
 		r.Check(same, key+" groups operators of one precedence level", cc.Pos(), strings.Join(toks, ","), fmt.Sprintf("tokens %v are handled by one arm but do not share one ECMAScript precedence level/associativity", toks))
 		f := collectArm(pk, cc.Body)
+		if len(f.ret) == 0 || len(f.right) == 0 || len(f.setL) == 0 {
+			// the arm exists but its levels are not spelled out in it (lv := levelsOf(tt); lv.prec < prec …): each of its
+			// operators is decided by specialisation, below
+			arms--
+			for _, t := range toks {
+				delete(covered, t)
+			}
+			continue
+		}
 		checkArm(key, toks[0], spec, f, cc.Pos())
 	}
 	// operators without a switch case of their own: the arm may be driven by data (a look-up function or table giving
